@@ -365,10 +365,11 @@ def View.frozen (v : View α) : Frozen α :=
 def World.frozen (w : World α) (k : Nat) : Option (Frozen α) := (w.view k).map View.frozen
 
 /-- the invariant, executable: values inside the bounds or NaN-when-allowed -/
-def valuesOk (an : Bool) (vals lo hi : List (XR α)) : Bool :=
-  all3 (fun x l h => (x.isNaN && an) || XR.within x l h) vals lo hi
+def okElem (an : Bool) (x l h : XR α) : Bool := (x.isNaN && an) || XR.within x l h
+def valuesOk (an : Bool) (vals lo hi : List (XR α)) : Bool := all3 (okElem an) vals lo hi
 /-- bounds are real intervals: no NaN, `min ≤ max` -/
-def boundsOk (lo hi : List (XR α)) : Bool := all2 (fun l h => !l.isNaN && !h.isNaN && !XR.lt h l) lo hi
+def boundElem (l h : XR α) : Bool := !l.isNaN && !h.isNaN && !XR.lt h l
+def boundsOk (lo hi : List (XR α)) : Bool := all2 boundElem lo hi
 
 def View.ok (v : View α) : Bool :=
   valuesOk v.acceptNan v.values v.mins v.maxs && valuesOk v.acceptNan v.defaults v.mins v.maxs
